@@ -15,7 +15,7 @@ ASSUMPTIONS = [
     "calc_feat_idx: ring size <= 256 and frame numbers <= 100000 (the 32-bit symbolic modulus does not finish)",
 ]
 HAND_LEMMAS = ["frames are consumed in the order they were written: acmod_advance moves the read slot to (slot + 1) mod n and calc_feat_idx maps absolute frame f to (feat_outidx + f - output_frame) mod n, the same sequence of slots the writer fills"]
-NOT_COVERED = ["end-to-end equality of hypotheses / scores under re-chunking (relational over two whole executions)", "acmod_process_cep (writer side of the ring; contract written in contracts/acmod.contracts.h, tier 'probe': its obligations are not all discharged and the failing ones are not understood well enough to call them either defects or specification errors -- seeded change C07_A is NOT detected)", "feat_s2mfc2feat_live live buffer (seeded change C07_B)", "cepstra ring (mfc_buf), acmod_process_raw/mfcbuf", "observation: in streaming mode with unread frames wrapped around the ring end, the two-part write of acmod_process_cep uses the unclamped frame count and can overwrite unread frames; reachable through the acmod-level API only (decoder_process_* drains the ring each call)"]
+NOT_COVERED = ["end-to-end equality of hypotheses / scores under re-chunking (relational over two whole executions)", "acmod_process_cep (writer side of the ring; contract written in contracts/acmod.contracts.h, tier 'probe': its obligations are not all discharged and the failing ones are not understood well enough to call them either defects or specification errors -- seeded change C07_A is NOT detected)", "feat_s2mfc2feat_live live buffer (seeded change C07_B)", "cepstra ring (mfc_buf), acmod_process_raw/mfcbuf", "observations from the unfinished acmod_process_cep contract (counterexamples of CBMC, NOT reproduced natively, reachable at most through the acmod-level API because decoder_process_* drains the ring after every call and never offers more cepstra than the ring holds): (1) with unread frames reaching the ring end and a request larger than the free space, the two-part write uses the unclamped frame count and overwrites unread frames; (2) if feat_s2mfc2feat_live consumes fewer cepstra than offered in the first part of a two-part write, the second part starts before the ring end and can run past the allocation; (3) at the end of an utterance with a wrapped write the function returns 0 although it dropped the offered cepstra"]
 CLAIM = dict(
     text="Reader side of the feature ring buffer only: acmod_advance is proved to move the read slot to the next slot of the ring, consume exactly one frame, never wrap in growing mode and preserve the ring invariant; acmod_rewind restores exactly consumed+queued frames from slot 0 and refuses an overrun ring; calc_feat_idx maps an absolute frame to (feat_outidx + f - output_frame) mod n and refuses frames the ring no longer holds (bounded ring size). That decoding results are identical under re-chunking is NOT decided; the writer side (acmod_process_cep) is not claimed.",
     note="reader side of the ring only; writer side, live feature buffer and the relational end-to-end statement not covered; trusted: CBMC 6.11",
